@@ -6,9 +6,9 @@
     calls (GammaQ, GammaP, Inv_GammaQ, GammaLn, Inv_Erf, Binomial_Coefficient) are parameters; what a theorem needs
     about them is an explicit hypothesis (non-vacuity: C07_Proofs_Ex.v).
     Clauses of one family are grouped in one theorem (one [Print Assumptions] per theorem). *)
-From Coq Require Import Reals ZArith List.
+From Coq Require Import Reals ZArith List Permutation Sorted.
 From Coquelicot Require Import Coquelicot.
-From LP Require Import Num NumR C07_Model C07_Proofs_Cont C07_Proofs_ErfBound C07_Proofs_Disc C07_Proofs_Chi C07_Proofs_Ex C07_Proofs_Kde C07_Proofs_Coh.
+From LP Require Import Num NumR C07_Model C07_Proofs_Cont C07_Proofs_ErfBound C07_Proofs_Disc C07_Proofs_Chi C07_Proofs_Ex C07_Proofs_Kde C07_Proofs_Coh C07_Proofs_Int.
 Import ListNotations.
 Local Open Scope R_scope.
 
@@ -528,3 +528,85 @@ Theorem C07_kde_estimate_is_mixture_partial data xmin xmax bw t :
      forall u v, u <= v -> 0 <= kmass ext u v h / wsum <= wtotal (map snd ext) / wsum).
 Proof. exact (perform_kde_mixture data xmin xmax bw t). Qed.
 Print Assumptions C07_kde_estimate_is_mixture_partial.
+
+(** ** Sixth pass (C07_Proofs_Int.v; non-vacuity examples at the end of that file) *)
+
+(** binomial, "the CDF difference over any interval equals the sum of the mass over it", for the model functions themselves and intervals of any
+    length: CDF_Binomial(k+d+1) - CDF_Binomial(k) = sum_{i=k+1..k+d+1} PMF_Binomial(i); hence non-decreasing over any number of steps, within [0,1],
+    and exactly 1 from the number of trials on.  Exchanging success and failure: PMF(n, p, k) = PMF(n, 1-p, n-k), and
+    CDF(n, p, x) + CDF(n, 1-p, n-x-1) = 1 for x < n *)
+Theorem C07_binomial_cdf_difference_is_sum binom : binom_spec binom ->
+  forall (n : nat) p (k d : nat), 0 <= p <= 1 -> (Z.of_nat n < 4294967296)%Z ->
+  val (cdf_binomial ROps binom (Z.of_nat n) p (Z.of_nat (k + S d))) - val (cdf_binomial ROps binom (Z.of_nat n) p (Z.of_nat k))
+    = sum_f_R0 (fun i => val (pmf_binomial ROps binom (Z.of_nat n) p (Z.of_nat (S k + i)))) d /\
+  val (cdf_binomial ROps binom (Z.of_nat n) p (Z.of_nat k)) <= val (cdf_binomial ROps binom (Z.of_nat n) p (Z.of_nat (k + d))) /\
+  0 <= val (cdf_binomial ROps binom (Z.of_nat n) p (Z.of_nat k)) <= 1 /\
+  ((n <= k)%nat -> cdf_binomial ROps binom (Z.of_nat n) p (Z.of_nat k) = Ok 1) /\
+  ((k <= n)%nat -> pmfv n p k = pmfv n (1 - p) (n - k)) /\
+  ((k < n)%nat -> sum_f_R0 (pmfv n p) k + sum_f_R0 (pmfv n (1 - p)) (n - k - 1) = 1).
+Proof.
+  exact (fun Hb n p k d Hp Hn => conj (cdf_binomial_interval binom Hb n p k d Hp Hn) (conj (cdf_binomial_mono_steps binom Hb n p k d Hp Hn)
+          (conj (cdf_binomial_range binom Hb n p k Hp Hn) (conj (cdf_binomial_top binom Hb n p k Hp Hn)
+          (conj (pmfv_reflect n p k) (pmfv_cdf_reflect n p k)))))).
+Qed.
+Print Assumptions C07_binomial_cdf_difference_is_sum.
+
+(** Poisson, the same clause for the model functions: if GammaQ(mu, a) returns Q(a, mu) at the integers a <= k+d+2,
+    CDF_Poisson(mu, k+d+1) - CDF_Poisson(mu, k) = sum_{i=k+1..k+d+1} PMF_Poisson(mu, i) (mean 0 included), and the CDF does not decrease *)
+Theorem C07_poisson_cdf_difference_is_sum gammaQ mu (k d : nat) : 0 <= mu -> (Z.of_nat (k + S d) + 1 < 4294967296)%Z ->
+  (forall n : nat, (n <= k + S d)%nat -> gammaQ mu (INR (S n)) = Ok (1 - RInt (fun t => exp (- t) * t ^ n / INR (fact n)) 0 mu)) ->
+  val (cdf_poisson ROps gammaQ mu (Z.of_nat (k + S d))) - val (cdf_poisson ROps gammaQ mu (Z.of_nat k))
+    = sum_f_R0 (fun i => val (pmf_poisson ROps mu (Z.of_nat (S k + i)))) d /\
+  val (cdf_poisson ROps gammaQ mu (Z.of_nat k)) <= val (cdf_poisson ROps gammaQ mu (Z.of_nat (k + S d))).
+Proof. exact (cdf_poisson_interval gammaQ mu k d). Qed.
+Print Assumptions C07_poisson_cdf_difference_is_sum.
+
+(** the binned likelihoods do not depend on the order of the bins: any permutation of the (prediction, observation, background) triples,
+    histograms of any length *)
+Theorem C07_likelihood_poisson_binned_any_bin_order p o b p' o' b' : sizes_ok p o b -> sizes_ok p' o' b' ->
+  Permutation (bins p o b) (bins p' o' b') ->
+  log_likelihood_poisson_binned ROps p o b = log_likelihood_poisson_binned ROps p' o' b' /\
+  likelihood_poisson_binned ROps p o b = likelihood_poisson_binned ROps p' o' b'.
+Proof. exact (binned_permutation p o b p' o' b'). Qed.
+Print Assumptions C07_likelihood_poisson_binned_any_bin_order.
+
+(** chi-square, "the CDF is non-decreasing from 0 to 1" on the whole real line (dof >= 1e-6), from what defines the regularised lower incomplete
+    gamma function P(., dof/2) that GammaP is to return: its derivative on (0, inf), P(0) = 0, values in [0,1] (and P -> 1 for the limit);
+    the monotonicity on (0, inf) comes from CDF(y) - CDF(x) = RInt density x y >= 0, not from a hypothesis *)
+Theorem C07_chi2_cdf_monotone_from_0_to_1 gammaLn gammaP (P : R -> R -> R) dof G :
+  1 / 1000000 <= dof -> 0 < G -> (forall t a, gammaP t a = Ok (P t a)) -> gammaLn (dof / 2) = Ok (ln G) ->
+  (forall t, 0 < t -> is_derive (fun t => P t (dof / 2)) t (Rpower t (dof / 2 - 1) * exp (- t) / G)) ->
+  P 0 (dof / 2) = 0 -> (forall t, 0 <= t -> 0 <= P t (dof / 2) <= 1) ->
+  (forall x y, x <= y -> val (cdf_chi_square ROps gammaP x dof) <= val (cdf_chi_square ROps gammaP y dof)) /\
+  (forall x, 0 <= val (cdf_chi_square ROps gammaP x dof) <= 1) /\
+  (forall x, x <= 0 -> val (cdf_chi_square ROps gammaP x dof) = 0) /\
+  (is_lim (fun t => P t (dof / 2)) p_infty 1 -> is_lim (fun x => val (cdf_chi_square ROps gammaP x dof)) p_infty 1).
+Proof.
+  exact (fun Hd HG HP HL HD H0 HR =>
+    conj (chi2_cdf_monotone gammaLn gammaP P dof G Hd HG HP HL HD H0 HR)
+   (conj (chi2_cdf_range gammaP P dof Hd HP HR)
+   (conj (chi2_cdf_low gammaP P dof Hd HP H0) (chi2_cdf_limit gammaP P dof Hd HP)))).
+Qed.
+Print Assumptions C07_chi2_cdf_monotone_from_0_to_1.
+
+(** KDE: when Perform_KDE's table is accepted.  For every sample (any size, any weights, any bandwidth) the tabulation reads inside the sample and
+    the table of 150 rows is accepted by the Interpolation constructor exactly for xMin < xMax; xMax <= xMin terminates the process.  This removes
+    the alternative "Exit" of C07_kde_table_partial.  The sort it uses returns an ascending permutation of the sample.
+    A common offset c of all samples and of the window (a window far from the origin) moves the 150 abscissae by c and leaves every tabulated
+    ordinate unchanged — sorting, pseudo data, automatic or manual bandwidth included (weight sum <> 0).
+    Samples without spread (all values equal; one sample, or any number of them) get the automatic bandwidth 0, so the hypothesis 0 < h of
+    C07_kde_estimate_is_mixture_partial fails for them — in the library the division by bw gives NaN (known finding K-C07-2). *)
+Theorem C07_kde_table_accepted_and_offset data xmin xmax bw :
+  (xmin < xmax -> exists t, perform_kde ROps PI data xmin xmax bw = Ok t /\ length t = 150%nat) /\
+  (xmax <= xmin -> perform_kde ROps PI data xmin xmax bw = Exit) /\
+  Permutation (sort_dp ROps data) data /\ StronglySorted le_value (sort_dp ROps data) /\
+  (forall c t t', wsum_of data 0 <> 0 ->
+     perform_kde ROps PI data xmin xmax bw = Ok t -> perform_kde ROps PI (shift c data) (xmin + c) (xmax + c) bw = Ok t' ->
+     forall k, (k < 150)%nat -> nth k t' dflt = (fst (nth k t dflt) + c, snd (nth k t dflt))) /\
+  (forall v, List.Forall (fun d => fst d = v) data -> wsum_of data 0 <> 0 -> kde_bandwidth ROps data (wsum_of data 0) 0 = 0).
+Proof.
+  exact (conj (proj1 (perform_kde_accepts data xmin xmax bw)) (conj (proj2 (perform_kde_accepts data xmin xmax bw))
+          (conj (sort_dp_perm data) (conj (sort_dp_sorted data)
+          (conj (fun c t t' => perform_kde_shift c data xmin xmax bw t t') (fun v => kde_bandwidth_no_spread v data)))))).
+Qed.
+Print Assumptions C07_kde_table_accepted_and_offset.
